@@ -140,7 +140,7 @@ Definition good_task (t : trec) : Prop :=
   | Some m, Some v =>
       v_state m = v_state v /\ v_state v <> SInitial
       /\ (v_state v = SRunning -> started t = 1%Z /\ reg t = 1%Z)
-      /\ (v_state v = SPaused -> started t = 0%Z /\ reg t = 0%Z /\ v_reason v = true /\ v_reason m = true)
+      /\ (v_state v = SPaused -> started t = 0%Z /\ reg t = 0%Z)
   | Some _, None => False
   end.
 
@@ -303,8 +303,6 @@ Proof.
   destruct A as [<-|[]], B as [<-|[]]; congruence.
 Qed.
 
-Definition reset_counters (t : trec) : trec :=
-  {| tid := tid t; ttarget := ttarget t; auto_off := auto_off t; mem := mem t; sto := sto t; started := 0; reg := (reg t - 1)%Z |}.
 
 Lemma release_unfold s id tg :
   release s id tg =
@@ -317,10 +315,7 @@ Lemma release_unfold s id tg :
            if (refcnt e1 =? 0)%Z then set_ents s1 (aremove (ents s1) tg) else set_ents s1 (aupsert (ents s1) tg e1)
       else if (refcnt e =? 0)%Z then set_ents s (aremove (ents s) tg) else set_ents s (aupsert (ents s) tg e)
   end.
-Proof.
-  unfold release. destruct (alookup (ents s) tg) as [e|]; [|reflexivity].
-  destruct (mem_str id (quit e)); reflexivity.
-Qed.
+Proof. reflexivity. Qed.
 
 Lemma frame_release s id tg id' : ent_ok s -> id' <> id -> frame s (release s id tg) id'.
 Proof.
@@ -419,10 +414,6 @@ Proof.
 Qed.
 
 (* ---------- update_state ---------- *)
-Definition with_sto (v : option view) (t : trec) : trec :=
-  {| tid := tid t; ttarget := ttarget t; auto_off := auto_off t; mem := mem t; sto := v; started := started t; reg := reg t |}.
-Definition with_mem (v : option view) (t : trec) : trec :=
-  {| tid := tid t; ttarget := ttarget t; auto_off := auto_off t; mem := v; sto := sto t; started := started t; reg := reg t |}.
 
 Lemma update_state_some s id new guard reason fg fp s' :
   update_state s id new guard reason fg fp = Some s' ->
@@ -497,14 +488,12 @@ Definition fresh_loaded (s : st) (id : string) : Prop :=
   exists t m v, find_task s id = Some t /\ tid t = id /\ mem t = Some m /\ sto t = Some v /\ v_state m = v_state v
     /\ started t = 0%Z /\ reg t = 0%Z /\ (forall tg, ~ in_quit s tg id) /\ (forall x, In id (g_get s x) <-> x = v_state v).
 
-Lemma set_mem_upd s id v : set_mem s id v = upd s id (with_mem v). Proof. reflexivity. Qed.
-Lemma set_sto_upd s id v : set_sto s id v = upd s id (with_sto v). Proof. reflexivity. Qed.
 
 Lemma in_quit_same s s' tg id : ents s' = ents s -> (in_quit s' tg id <-> in_quit s tg id).
 Proof. unfold in_quit; intros ->; tauto. Qed.
 
 (* ---------- pause_with ---------- *)
-Definition P := {| v_state := SPaused; v_reason := true |}.
+Notation P := {| v_state := SPaused; v_reason := true |}.
 
 Lemma pause_with_unfold s id guard fg fp :
   pause_with s id guard fg fp =
@@ -523,11 +512,7 @@ Lemma pause_with_unfold s id guard fg fp :
       | Some t => match mem t with None => (s1, true) | Some _ => (release (upd s1 id (with_mem (Some P))) id (ttarget t), true) end
       end
   end.
-Proof.
-  unfold pause_with. destruct (update_state s id SPaused guard true fg fp) as [s1|].
-  - destruct guard as [|g0 gl]; destruct (find_task s1 id) as [t|]; try reflexivity; destruct (mem t); reflexivity.
-  - destruct guard as [|g0 gl]; [|reflexivity]. destruct (find_task s id) as [t|]; [|reflexivity]. destruct (mem t); reflexivity.
-Qed.
+Proof. reflexivity. Qed.
 
 Lemma frame_pause_with s id guard fg fp id' : ent_ok s -> id' <> id -> frame s (fst (pause_with s id guard fg fp)) id'.
 Proof.
@@ -639,4 +624,923 @@ Proof.
   split. { change (gp (release s2 id (ttarget t))) with (g_get (release s2 id (ttarget t)) SPaused). rewrite GI, G2, L0. tauto. }
   split. { intros tg. rewrite A0. split; [intros H; exfalso; apply (Q tg H)|intros [_ H]; discriminate]. }
   rewrite A0; discriminate.
+Qed.
+
+(* ---------- start ---------- *)
+Notation R := {| v_state := SRunning; v_reason := false |}.
+
+Lemma start_unfold s id ignore fpg fg fp :
+  start s id ignore fpg fg fp =
+  match find_task s id with
+  | None => (s, false)
+  | Some t =>
+      match alookup (ents s) (ttarget t) with
+      | None => (s, false)
+      | Some e =>
+          if fpg then (s, false)
+          else
+            let s1 := set_ents (upd s id (bump_reg 1)) (aupsert (ents s) (ttarget t) {| refcnt := (refcnt e + 1)%Z; quit := add id (quit e) |}) in
+            match (if ignore then Some s1 else update_state s1 id SRunning [SInitial; SPaused] false fg fp) with
+            | None =>
+                (set_ents (upd s1 id (bump_reg (-1)))
+                   (aupsert (ents s1) (ttarget t) {| refcnt := (refcnt e + 1 - 1)%Z; quit := rm id (add id (quit e)) |}), false)
+            | Some s2 => (upd s2 id now_running, true)
+            end
+      end
+  end.
+Proof. reflexivity. Qed.
+
+Lemma rm_add_notin id l : ~ In id l -> rm id (add id l) = l.
+Proof.
+  intros H. unfold add. apply mem_str_false in H. rewrite H. unfold rm. rewrite filter_app. cbn.
+  rewrite String.eqb_refl. cbn. rewrite app_nil_r. apply mem_str_false in H. apply (rm_notin id l H).
+Qed.
+
+Lemma frame_start s id ignore fpg fg fp id' : id' <> id -> frame s (fst (start s id ignore fpg fg fp)) id'.
+Proof.
+  intros N. rewrite start_unfold. destruct (find_task s id) as [t|]; [|apply frame_refl].
+  destruct (alookup (ents s) (ttarget t)) as [e|] eqn:A; [|apply frame_refl].
+  destruct fpg; [apply frame_refl|]. cbn zeta.
+  set (e1 := {| refcnt := (refcnt e + 1)%Z; quit := add id (quit e) |}).
+  set (s1 := set_ents (upd s id (bump_reg 1)) (aupsert (ents s) (ttarget t) e1)).
+  assert (F1 : frame s s1 id').
+  { eapply frame_trans; [apply (frame_upd s id (bump_reg 1) id'); [reflexivity|exact N]|].
+    apply (frame_upsert (upd s id (bump_reg 1)) (ttarget t) e e1 id'); [exact A|]. cbn. rewrite In_add. intuition congruence. }
+  assert (A1 : alookup (ents s1) (ttarget t) = Some e1) by (unfold s1; cbn; apply alookup_aupsert_same).
+  destruct (if ignore then Some s1 else update_state s1 id SRunning [SInitial; SPaused] false fg fp) as [s2|] eqn:Af; cbn [fst].
+  - assert (F2 : frame s1 s2 id').
+    { destruct ignore; [injection Af as <-; apply frame_refl|apply (frame_update_state _ _ _ _ _ _ _ _ id' Af N)]. }
+    eapply frame_trans; [exact F1|]. eapply frame_trans; [exact F2|]. apply frame_upd; [reflexivity|exact N].
+  - eapply frame_trans; [exact F1|].
+    eapply frame_trans; [apply (frame_upd s1 id (bump_reg (-1)) id'); [reflexivity|exact N]|].
+    apply (frame_upsert (upd s1 id (bump_reg (-1))) (ttarget t) e1 _ id'); [exact A1|]. cbn. rewrite In_rm. intuition congruence.
+Qed.
+
+Lemma g_ok_start s id ignore fpg fg fp : g_ok s -> g_ok (fst (start s id ignore fpg fg fp)).
+Proof.
+  intros G. rewrite start_unfold. destruct (find_task s id) as [t|]; [|exact G].
+  destruct (alookup (ents s) (ttarget t)) as [e|]; [|exact G]. destruct fpg; [exact G|]. cbn zeta.
+  match goal with |- context [update_state ?s1 _ _ _ _ _ _] => set (s1' := s1) end.
+  assert (G1 : g_ok s1') by (apply (g_ok_same s); try reflexivity; exact G).
+  destruct (if ignore then Some s1' else update_state s1' id SRunning [SInitial; SPaused] false fg fp) as [s2|] eqn:Af; cbn [fst].
+  - assert (G2 : g_ok s2) by (destruct ignore; [injection Af as <-; exact G1|apply (g_ok_update_state _ _ _ _ _ _ _ _ Af G1)]).
+    apply (g_ok_same s2); try reflexivity; exact G2.
+  - apply (g_ok_same s1'); try reflexivity; exact G1.
+Qed.
+
+Lemma ent_ok_start s id ignore fpg fg fp : ent_ok s -> (forall tg, ~ in_quit s tg id) -> ent_ok (fst (start s id ignore fpg fg fp)).
+Proof.
+  intros EO NQ. rewrite start_unfold. destruct (find_task s id) as [t|]; [|exact EO].
+  destruct (alookup (ents s) (ttarget t)) as [e|] eqn:A; [|exact EO]. destruct fpg; [exact EO|]. cbn zeta.
+  destruct (EO _ _ A) as [ND RC].
+  assert (Nin : ~ In id (quit e)) by (intros B; apply (NQ (ttarget t)); exists e; split; assumption).
+  set (e1 := {| refcnt := (refcnt e + 1)%Z; quit := add id (quit e) |}).
+  set (s1 := set_ents (upd s id (bump_reg 1)) (aupsert (ents s) (ttarget t) e1)).
+  assert (EO1 : ent_ok s1).
+  { unfold s1. apply (ent_ok_upsert (upd s id (bump_reg 1))); [apply (ent_ok_same s); [reflexivity|exact EO]|apply NoDup_add; exact ND|].
+    cbn. rewrite (length_add_new id (quit e) Nin). lia. }
+  destruct (if ignore then Some s1 else update_state s1 id SRunning [SInitial; SPaused] false fg fp) as [s2|] eqn:Af; cbn [fst].
+  - assert (E2 : ents s2 = ents s1) by (destruct ignore; [injection Af as <-; reflexivity|apply (ents_update_state _ _ _ _ _ _ _ _ Af)]).
+    apply (ent_ok_same s1); [exact E2|exact EO1].
+  - apply (ent_ok_upsert (upd s1 id (bump_reg (-1)))); [apply (ent_ok_same s1); [reflexivity|exact EO1]| |]; cbn.
+    + rewrite (rm_add_notin id _ Nin); exact ND.
+    + rewrite (rm_add_notin id _ Nin). lia.
+Qed.
+
+Lemma start_self s id ignore fpg fg fp t m v :
+  ent_ok s -> find_task s id = Some t -> tid t = id -> mem t = Some m -> sto t = Some v -> v_state m = v_state v ->
+  started t = 0%Z -> reg t = 0%Z -> (forall tg, ~ in_quit s tg id) -> (forall x, In id (g_get s x) <-> x = v_state v) ->
+  (ignore = true -> v_state v = SRunning) ->
+  let r := start s id ignore fpg fg fp in
+  (snd r = true -> task_ok (fst r) id)
+  /\ (snd r = false -> exists t', find_task (fst r) id = Some t' /\ tid t' = id /\ mem t' = mem t /\ sto t' = sto t
+         /\ ttarget t' = ttarget t /\ auto_off t' = auto_off t /\ started t' = 0%Z /\ reg t' = 0%Z
+         /\ (forall tg, ~ in_quit (fst r) tg id) /\ (forall x, g_get (fst r) x = g_get s x)).
+Proof.
+  intros EO F T Mm Ss MV S0 R0 NQ G IG. cbn zeta. rewrite start_unfold, F.
+  assert (FL : exists t', find_task s id = Some t' /\ tid t' = id /\ mem t' = mem t /\ sto t' = sto t
+         /\ ttarget t' = ttarget t /\ auto_off t' = auto_off t /\ started t' = 0%Z /\ reg t' = 0%Z
+         /\ (forall tg, ~ in_quit s tg id) /\ (forall x, g_get s x = g_get s x)).
+  { exists t. repeat split; assumption. }
+  destruct (alookup (ents s) (ttarget t)) as [e|] eqn:A; [|cbn; split; [discriminate|intros _; exact FL]].
+  destruct fpg; [cbn; split; [discriminate|intros _; exact FL]|]. cbn zeta.
+  assert (Nin : ~ In id (quit e)) by (intros B; apply (NQ (ttarget t)); exists e; split; assumption).
+  set (e1 := {| refcnt := (refcnt e + 1)%Z; quit := add id (quit e) |}).
+  set (s1 := set_ents (upd s id (bump_reg 1)) (aupsert (ents s) (ttarget t) e1)).
+  assert (F1 : find_task s1 id = Some (bump_reg 1 t)).
+  { unfold s1. rewrite find_set_ents, find_upd by reflexivity. rewrite String.eqb_refl, F; reflexivity. }
+  assert (G1 : forall x, g_get s1 x = g_get s x) by (intros x; unfold s1; rewrite g_get_set_ents, g_get_upd; reflexivity).
+  destruct (if ignore then Some s1 else update_state s1 id SRunning [SInitial; SPaused] false fg fp) as [s2|] eqn:Af; cbn [fst snd].
+  - split; [intros _|discriminate].
+    assert (X : exists t2, find_task s2 id = Some t2 /\ tid t2 = id /\ ttarget t2 = ttarget t /\ mem t2 = Some m
+                 /\ (exists v2, sto t2 = Some v2 /\ v_state v2 = SRunning) /\ started t2 = 0%Z /\ reg t2 = 1%Z
+                 /\ ents s2 = ents s1 /\ (forall x, In id (g_get s2 x) <-> x = SRunning)).
+    { destruct ignore.
+      - injection Af as <-. exists (bump_reg 1 t). cbn [tid ttarget mem sto started reg bump_reg].
+        split; [exact F1|]. split; [exact T|]. split; [reflexivity|]. split; [exact Mm|].
+        split; [exists v; split; [exact Ss|apply IG; reflexivity]|]. split; [exact S0|]. split; [lia|]. split; [reflexivity|].
+        intros x. rewrite G1, G, (IG eq_refl). tauto.
+      - destruct (update_state_some _ _ _ _ _ _ _ _ Af) as [t' [v' [F' [S' [_ ->]]]]].
+        rewrite F1 in F'; injection F' as <-. cbn in S'. rewrite Ss in S'; injection S' as <-.
+        exists (with_sto (Some R) (bump_reg 1 t)). cbn [tid ttarget mem sto started reg bump_reg with_sto].
+        split. { rewrite find_g_update. unfold set_sto. rewrite find_upd by reflexivity. rewrite String.eqb_refl, F1; reflexivity. }
+        split; [exact T|]. split; [reflexivity|]. split; [exact Mm|].
+        split; [exists R; split; reflexivity|]. split; [exact S0|]. split; [lia|].
+        split; [rewrite ents_g_update; reflexivity|].
+        apply g_update_collapse. intros y. unfold set_sto. rewrite g_get_upd, G1. apply G. }
+    destruct X as [t2 [F2 [T2 [TG2 [M2 [[v2 [S2 V2]] [ST2 [RG2 [E2 G2]]]]]]]]].
+    set (s3 := upd s2 id now_running).
+    assert (F3 : find_task s3 id = Some (now_running t2)).
+    { unfold s3. rewrite find_upd by reflexivity. rewrite String.eqb_refl, F2; reflexivity. }
+    assert (A3 : activeb (now_running t2) = true) by (unfold activeb, loadedb, runningb; cbn; rewrite S2, V2; reflexivity).
+    assert (L3 : lpausedb (now_running t2) = false) by (unfold lpausedb, loadedb, pausedb; cbn; rewrite S2, V2; reflexivity).
+    assert (G3 : forall x, In id (g_get s3 x) <-> x = SRunning) by (intros x; unfold s3; rewrite g_get_upd; apply G2).
+    unfold task_ok. rewrite F3.
+    split. { change (gi s3) with (g_get s3 SInitial). rewrite G3; discriminate. }
+    split; [exact T2|]. split.
+    { unfold good_task; cbn. rewrite S2. cbn. rewrite V2. repeat split; try discriminate; try lia. }
+    split. { change (gr s3) with (g_get s3 SRunning). rewrite G3, A3; tauto. }
+    split. { change (gp s3) with (g_get s3 SPaused). rewrite G3, L3. split; discriminate. }
+    assert (E3 : ents s3 = aupsert (ents s) (ttarget t) e1) by (unfold s3; cbn; rewrite E2; reflexivity).
+    split.
+    + intros tg. rewrite A3. cbn [ttarget now_running]. rewrite TG2. unfold in_quit. rewrite E3.
+      destruct (String.eqb_spec (ttarget t) tg) as [<-|N].
+      * rewrite alookup_aupsert_same. split; [tauto|]. intros _. exists e1; split; [reflexivity|]. cbn. apply In_add; right; reflexivity.
+      * rewrite alookup_aupsert_other by exact N. split; [intros H; exfalso; apply (NQ tg H)|]. intros [E _]; congruence.
+    + intros _. cbn [ttarget now_running]. rewrite TG2, E3, alookup_aupsert_same; discriminate.
+  - split; [discriminate|intros _].
+    set (e2 := {| refcnt := (refcnt e + 1 - 1)%Z; quit := rm id (add id (quit e)) |}).
+    set (sF := set_ents (upd s1 id (bump_reg (-1))) (aupsert (ents s1) (ttarget t) e2)).
+    exists (bump_reg (-1) (bump_reg 1 t)). cbn [tid mem sto started reg bump_reg ttarget auto_off].
+    split. { unfold sF. rewrite find_set_ents, find_upd by reflexivity. rewrite String.eqb_refl, F1; reflexivity. }
+    split; [exact T|]. split; [reflexivity|]. split; [reflexivity|]. split; [reflexivity|]. split; [reflexivity|].
+    split; [exact S0|]. split; [lia|]. split.
+    + intros tg [e' [A' B']]. unfold sF, s1 in A'. cbn [set_ents ents upd] in A'.
+      destruct (String.eqb_spec (ttarget t) tg) as [<-|N].
+      * rewrite alookup_aupsert_same in A'; injection A' as <-. cbn in B'. rewrite (rm_add_notin id _ Nin) in B'. tauto.
+      * rewrite !alookup_aupsert_other in A' by exact N. apply (NQ tg). exists e'; split; assumption.
+    + intros x. unfold sF. rewrite g_get_set_ents, g_get_upd, G1. reflexivity.
+Qed.
+
+(* ---------- delete ---------- *)
+Lemma delete_unfold s id fg fc :
+  delete s id fg fc =
+  match find_task s id with
+  | None => (s, false)
+  | Some t =>
+      if fg then (s, false)
+      else match sto t with
+           | None => (s, false)
+           | Some v => if fc then (s, false)
+                       else (release (upd (g_delete (upd s id (with_sto None)) id (v_state v)) id (with_mem None)) id (ttarget t), true)
+           end
+  end.
+Proof. reflexivity. Qed.
+
+Lemma frame_delete s id fg fc id' : ent_ok s -> id' <> id -> frame s (fst (delete s id fg fc)) id'.
+Proof.
+  intros EO N. rewrite delete_unfold. destruct (find_task s id) as [t|]; [|apply frame_refl].
+  destruct fg; [apply frame_refl|]. destruct (sto t) as [v|]; [|apply frame_refl]. destruct fc; [apply frame_refl|]. cbn [fst].
+  eapply frame_trans; [apply (frame_upd s id (with_sto None) id'); [reflexivity|exact N]|].
+  eapply frame_trans; [apply frame_g_delete; exact N|].
+  eapply frame_trans; [apply (frame_upd _ id (with_mem None) id'); [reflexivity|exact N]|].
+  apply frame_release; [|exact N]. apply (ent_ok_same s); [cbn; rewrite ents_g_delete; reflexivity|exact EO].
+Qed.
+Lemma ent_ok_delete s id fg fc : ent_ok s -> ent_ok (fst (delete s id fg fc)).
+Proof.
+  intros EO. rewrite delete_unfold. destruct (find_task s id) as [t|]; [|exact EO].
+  destruct fg; [exact EO|]. destruct (sto t) as [v|]; [|exact EO]. destruct fc; [exact EO|]. cbn [fst].
+  apply ent_ok_release. apply (ent_ok_same s); [cbn; rewrite ents_g_delete; reflexivity|exact EO].
+Qed.
+Lemma g_ok_delete s id fg fc : g_ok s -> g_ok (fst (delete s id fg fc)).
+Proof.
+  intros G. rewrite delete_unfold. destruct (find_task s id) as [t|]; [|exact G].
+  destruct fg; [exact G|]. destruct (sto t) as [v|]; [|exact G]. destruct fc; [exact G|]. cbn [fst].
+  apply g_ok_release. apply (g_ok_same (g_delete (upd s id (with_sto None)) id (v_state v))); try reflexivity.
+  apply g_ok_g_delete. apply (g_ok_same s); try reflexivity; exact G.
+Qed.
+
+Lemma delete_self s id fg fc t v :
+  ent_ok s -> find_task s id = Some t -> tid t = id -> sto t = Some v -> wired s id t ->
+  (forall x, In id (g_get s x) <-> x = v_state v) ->
+  snd (delete s id fg fc) = true -> task_ok (fst (delete s id fg fc)) id.
+Proof.
+  intros EO F T Ss W G. rewrite delete_unfold, F. destruct fg; [discriminate|]. rewrite Ss. destruct fc; [discriminate|]. intros _. cbn [fst].
+  set (s2 := upd (g_delete (upd s id (with_sto None)) id (v_state v)) id (with_mem None)).
+  assert (E2 : ents s2 = ents s) by (unfold s2; cbn; rewrite ents_g_delete; reflexivity).
+  assert (F2 : find_task s2 id = Some (with_mem None (with_sto None t))).
+  { unfold s2. rewrite find_upd by reflexivity. rewrite String.eqb_refl, find_g_delete, find_upd by reflexivity.
+    rewrite String.eqb_refl, F; reflexivity. }
+  assert (G2 : forall x, ~ In id (g_get s2 x)).
+  { intros x. unfold s2. rewrite g_get_upd. unfold g_delete. rewrite g_get_g_set.
+    destruct (tstate_eqb_spec (v_state v) x) as [<-|N].
+    - rewrite In_rm; tauto.
+    - rewrite g_get_upd, G. congruence. }
+  assert (EO2 : ent_ok s2) by (apply (ent_ok_same s); assumption).
+  assert (GI : forall x, g_get (release s2 id (ttarget t)) x = g_get s2 x) by (intros x; apply g_get_release).
+  assert (Q : forall tg, ~ in_quit (release s2 id (ttarget t)) tg id).
+  { intros tg H. apply (in_quit_release s2 id (ttarget t) tg EO2) in H. destruct H as [H N].
+    rewrite (in_quit_same s s2 tg id E2) in H. destruct W as [[_ [_ W]]|[_ [_ W]]]; [apply N, W, H|apply (W tg H)]. }
+  assert (Fin : exists tf, find_task (release s2 id (ttarget t)) id = Some tf
+                 /\ tid tf = id /\ mem tf = None /\ sto tf = None /\ started tf = 0%Z /\ reg tf = 0%Z).
+  { rewrite find_release_self, F2, E2. destruct W as [[W1 [W2 W3]]|[W1 [W2 W3]]].
+    - pose proof (proj2 (W3 (ttarget t)) eq_refl) as [e [A B]]. rewrite A. apply mem_str_In in B. rewrite B.
+      eexists; split; [reflexivity|]. cbn. repeat split; try assumption; lia.
+    - destruct (alookup (ents s) (ttarget t)) as [e|] eqn:A.
+      + destruct (mem_str id (quit e)) eqn:B.
+        * exfalso. apply (W3 (ttarget t)). exists e; split; [exact A|apply mem_str_In; exact B].
+        * eexists; split; [reflexivity|]. cbn. repeat split; assumption.
+      + eexists; split; [reflexivity|]. cbn. repeat split; assumption. }
+  destruct Fin as [tf [FF [T1 [T3 [T4 [T5 T6]]]]]].
+  unfold task_ok. rewrite FF.
+  assert (A0 : activeb tf = false) by (unfold activeb, loadedb; rewrite T3; reflexivity).
+  assert (L0 : lpausedb tf = false) by (unfold lpausedb, loadedb; rewrite T3; reflexivity).
+  split. { change (gi (release s2 id (ttarget t))) with (g_get (release s2 id (ttarget t)) SInitial). rewrite GI. apply G2. }
+  split; [exact T1|]. split. { unfold good_task. rewrite T3. split; assumption. }
+  split. { change (gr (release s2 id (ttarget t))) with (g_get (release s2 id (ttarget t)) SRunning). rewrite GI, A0. split; [intros H; exfalso; apply (G2 _ H)|discriminate]. }
+  split. { change (gp (release s2 id (ttarget t))) with (g_get (release s2 id (ttarget t)) SPaused). rewrite GI, L0. split; [intros H; exfalso; apply (G2 _ H)|discriminate]. }
+  split. { intros tg. rewrite A0. split; [intros H; exfalso; apply (Q tg H)|intros [_ H]; discriminate]. }
+  rewrite A0; discriminate.
+Qed.
+
+(* what task_ok says about a loaded task *)
+Lemma loaded_facts s id t m : task_ok s id -> find_task s id = Some t -> mem t = Some m ->
+  exists v, sto t = Some v /\ v_state m = v_state v /\ v_state v <> SInitial /\ wired s id t
+            /\ (forall x, In id (g_get s x) <-> x = v_state v) /\ tid t = id.
+Proof.
+  intros [GI0 TK] F Mm. rewrite F in TK. destruct TK as [T [Gd [Rr [Pp [Q HE]]]]].
+  unfold good_task in Gd. rewrite Mm in Gd. destruct (sto t) as [v|] eqn:Ss; [|tauto].
+  destruct Gd as [MV [NI [GR GP]]]. exists v. split; [reflexivity|]. split; [exact MV|]. split; [exact NI|].
+  assert (AB : activeb t = tstate_eqb (v_state v) SRunning) by (unfold activeb, loadedb, runningb; rewrite Mm, Ss; reflexivity).
+  assert (LB : lpausedb t = tstate_eqb (v_state v) SPaused) by (unfold lpausedb, loadedb, pausedb; rewrite Mm, Ss; reflexivity).
+  split; [|split; [|exact T]].
+  - destruct (v_state v) eqn:V; [congruence| |].
+    + left. destruct (GR eq_refl) as [A B]. split; [exact A|]. split; [exact B|]. intros tg. rewrite Q, AB. cbn. intuition.
+    + right. destruct (GP eq_refl) as [A B]. split; [exact A|]. split; [exact B|]. intros tg H. apply Q in H. rewrite AB in H. cbn in H. destruct H; discriminate.
+  - intros x. destruct x; cbn [g_get].
+    + split; [tauto|]. intros E; congruence.
+    + rewrite Rr, AB. destruct (tstate_eqb_spec (v_state v) SRunning); split; congruence.
+    + rewrite Pp, LB. destruct (tstate_eqb_spec (v_state v) SPaused); split; congruence.
+Qed.
+
+(* ---------- API steps preserve GInv ---------- *)
+Lemma GInv_ensure s tg : GInv s -> GInv (ensure_ent s tg).
+Proof.
+  intros I. unfold ensure_ent. destruct (alookup (ents s) tg) eqn:A; [exact I|].
+  constructor.
+  - intros id. apply (task_ok_frame s); [|apply (gi_task s I)].
+    apply frame_insert; [exact A|cbn; tauto].
+  - apply ent_ok_upsert; [apply (gi_ent s I)|constructor|reflexivity].
+  - apply (g_ok_same s); try reflexivity; apply (gi_g s I).
+Qed.
+
+Lemma in_mem_find s id v : in_mem s id = Some v -> exists t, find_task s id = Some t /\ mem t = Some v.
+Proof. unfold in_mem. destruct (find_task s id) as [t|]; [|discriminate]. intros H; exists t; split; [reflexivity|exact H]. Qed.
+
+Lemma pause_api_ginv s id fg fp : GInv s -> in_mem s id <> None -> GInv (fst (pause_with s id [SRunning] fg fp)).
+Proof.
+  intros I IM. destruct (in_mem s id) as [m|] eqn:E; [|congruence]. destruct (in_mem_find _ _ _ E) as [t [F Mm]].
+  destruct (loaded_facts s id t m (gi_task s I id) F Mm) as [v [Ss [MV [NI [W [G T]]]]]].
+  destruct (update_state s id SPaused [SRunning] true fg fp) as [s1|] eqn:U.
+  - apply (GInvX_full _ id).
+    + apply (GInvX_frame s); [intros id' N; apply frame_pause_with; [apply (gi_ent s I)|exact N]
+                             |apply ent_ok_pause_with, (gi_ent s I)|apply g_ok_pause_with, (gi_g s I)|apply GInv_X; exact I].
+    + apply (pause_self s id [SRunning] fg fp t m v s1); try assumption; [apply (gi_ent s I)|left; apply (gi_task s I id)].
+  - rewrite pause_with_unfold, U. exact I.
+Qed.
+
+Lemma idle_task_ok s id t m v :
+  find_task s id = Some t -> tid t = id -> mem t = Some m -> sto t = Some v -> v_state m = v_state v ->
+  v_state v = SPaused -> started t = 0%Z -> reg t = 0%Z ->
+  (forall tg, ~ in_quit s tg id) -> (forall x, In id (g_get s x) <-> x = SPaused) -> task_ok s id.
+Proof.
+  intros F T Mm Ss MV VP S0 R0 NQ G. unfold task_ok. rewrite F.
+  assert (A0 : activeb t = false) by (unfold activeb, runningb; rewrite Ss, VP; cbn; apply andb_false_r).
+  assert (L0 : lpausedb t = true) by (unfold lpausedb, loadedb, pausedb; rewrite Mm, Ss, VP; reflexivity).
+  split. { change (gi s) with (g_get s SInitial). rewrite G; discriminate. }
+  split; [exact T|]. split.
+  { unfold good_task. rewrite Mm, Ss. split; [exact MV|]. split; [rewrite VP; discriminate|]. split; [rewrite VP; discriminate|].
+    intros _. repeat split; assumption. }
+  split. { change (gr s) with (g_get s SRunning). rewrite G, A0. split; discriminate. }
+  split. { change (gp s) with (g_get s SPaused). rewrite G, L0. tauto. }
+  split. { intros tg. rewrite A0. split; [intros H; exfalso; apply (NQ tg H)|intros [_ H]; discriminate]. }
+  rewrite A0; discriminate.
+Qed.
+
+Lemma resume_ginv s id fpg fg fp : GInv s -> in_mem s id <> None ->
+  (forall t, find_task s id = Some t -> pausedb t = true) ->
+  GInv (fst (start s id false fpg fg fp)).
+Proof.
+  intros I IM PB. destruct (in_mem s id) as [m|] eqn:E; [|congruence]. destruct (in_mem_find _ _ _ E) as [t [F Mm]].
+  destruct (loaded_facts s id t m (gi_task s I id) F Mm) as [v [Ss [MV [NI [W [G T]]]]]].
+  pose proof (PB t F) as PBt. unfold pausedb in PBt. rewrite Ss in PBt. destruct (tstate_eqb_spec (v_state v) SPaused) as [VP|]; [|discriminate].
+  destruct W as [[_ [_ W]]|[S0 [R0 NQ]]].
+  { exfalso. destruct (gi_task s I id) as [_ TK]. rewrite F in TK. destruct TK as [_ [_ [_ [_ [Q _]]]]].
+    pose proof (proj1 (Q (ttarget t)) (proj2 (W (ttarget t)) eq_refl)) as [_ A].
+    unfold activeb, runningb in A. rewrite Ss, VP in A. cbn in A. rewrite andb_false_r in A; discriminate. }
+  pose proof (start_self s id false fpg fg fp t m v (gi_ent s I) F T Mm Ss MV S0 R0 NQ G ltac:(discriminate)) as [OK KO].
+  cbn zeta in OK, KO.
+  apply (GInvX_full _ id).
+  - apply (GInvX_frame s); [intros id' N; apply frame_start; exact N|apply ent_ok_start; [apply (gi_ent s I)|exact NQ]
+                           |apply g_ok_start, (gi_g s I)|apply GInv_X; exact I].
+  - destruct (snd (start s id false fpg fg fp)) eqn:Sn; [apply OK; reflexivity|].
+    destruct (KO eq_refl) as [t' [F' [T' [M' [S' [_ [_ [S0' [R0' [NQ' G']]]]]]]]]].
+    apply (idle_task_ok _ id t' m v); try assumption; try tauto; try congruence.
+    intros x. rewrite G', G, VP. tauto.
+Qed.
+
+Lemma delete_ginv s id fg fc : GInv s -> in_mem s id <> None -> GInv (fst (delete s id fg fc)).
+Proof.
+  intros I IM. destruct (in_mem s id) as [m|] eqn:E; [|congruence]. destruct (in_mem_find _ _ _ E) as [t [F Mm]].
+  destruct (loaded_facts s id t m (gi_task s I id) F Mm) as [v [Ss [MV [NI [W [G T]]]]]].
+  destruct (snd (delete s id fg fc)) eqn:Sn.
+  - apply (GInvX_full _ id).
+    + apply (GInvX_frame s); [intros id' N; apply frame_delete; [apply (gi_ent s I)|exact N]
+                             |apply ent_ok_delete, (gi_ent s I)|apply g_ok_delete, (gi_g s I)|apply GInv_X; exact I].
+    + apply (delete_self s id fg fc t v); try assumption. apply (gi_ent s I).
+  - rewrite delete_unfold, F, Ss in *. destruct fg; [exact I|]. destruct fc; [exact I|discriminate].
+Qed.
+
+(* ---------- create ---------- *)
+Definition insert_fresh (s : st) (id : string) (fresh : trec) : st :=
+  {| ts := (filter (fun t => negb (String.eqb (tid t) id)) (ts s)) ++ [fresh]; ents := ents s; gi := gi s; gr := gr s; gp := gp s |}.
+
+Lemma find_insert_fresh s id fresh id' : tid fresh = id ->
+  find_task (insert_fresh s id fresh) id' = if String.eqb id' id then Some fresh else find_task s id'.
+Proof.
+  intros T. unfold find_task, insert_fresh; cbn [ts].
+  induction (ts s) as [|t r IH]; cbn [filter app find].
+  - rewrite T. destruct (String.eqb_spec id id'), (String.eqb_spec id' id); try congruence; reflexivity.
+  - destruct (String.eqb_spec (tid t) id) as [E|N]; cbn [negb].
+    + destruct (String.eqb_spec (tid t) id') as [E'|N'].
+      * destruct (String.eqb_spec id' id); [exact IH|congruence].
+      * exact IH.
+    + cbn [app find]. destruct (String.eqb_spec (tid t) id') as [E'|N'].
+      * destruct (String.eqb_spec id' id); [congruence|reflexivity].
+      * exact IH.
+Qed.
+
+Lemma frame_insert_fresh s id fresh id' : tid fresh = id -> id' <> id -> frame s (insert_fresh s id fresh) id'.
+Proof.
+  intros T N. constructor.
+  - rewrite find_insert_fresh by exact T. destruct (String.eqb_spec id' id); [congruence|reflexivity].
+  - intros x; destruct x; cbn; tauto.
+  - apply ents_frame_same; reflexivity.
+Qed.
+
+Notation I0 := {| v_state := SInitial; v_reason := false |}.
+
+Lemma create_ginv s id tg aoff f : GInv s -> in_mem s id = None ->
+  let fresh := {| tid := id; ttarget := tg; auto_off := aoff; mem := Some I0; sto := Some I0; started := 0; reg := 0 |} in
+  let s1 := g_add (insert_fresh s id fresh) id SInitial in
+  let r := start s1 id false (fails f KPosGet 1) (fails f KTaskGet 2) (fails f KTaskPut 2) in
+  GInv (if snd r then fst r else fst (delete (fst r) id false false)).
+Proof.
+  intros I IM fresh s1 r.
+  (* what the invariant knew about this id before *)
+  destruct (gi_task s I id) as [GI0 TK].
+  assert (Pre : ~ In id (gr s) /\ ~ In id (gp s) /\ forall tg', ~ in_quit s tg' id).
+  { unfold in_mem in IM. destruct (find_task s id) as [t|] eqn:F.
+    - destruct TK as [_ [_ [Rr [Pp [Q _]]]]].
+      assert (A0 : activeb t = false) by (unfold activeb, loadedb; rewrite IM; reflexivity).
+      assert (L0 : lpausedb t = false) by (unfold lpausedb, loadedb; rewrite IM; reflexivity).
+      rewrite A0 in Rr, Q. rewrite L0 in Pp. repeat split.
+      + intros H; apply Rr in H; discriminate.
+      + intros H; apply Pp in H; discriminate.
+      + intros tg' H. apply Q in H. destruct H; discriminate.
+    - exact TK. }
+  destruct Pre as [NR [NP NQ]].
+  assert (F1 : find_task s1 id = Some fresh).
+  { unfold s1. rewrite find_g_add, find_insert_fresh by reflexivity. rewrite String.eqb_refl; reflexivity. }
+  assert (E1 : ents s1 = ents s) by (unfold s1; rewrite ents_g_add; reflexivity).
+  assert (NQ1 : forall tg', ~ in_quit s1 tg' id) by (intros tg' H; rewrite (in_quit_same s s1 tg' id E1) in H; apply (NQ tg' H)).
+  assert (G1 : forall x, In id (g_get s1 x) <-> x = SInitial).
+  { intros x. unfold s1, g_add. rewrite g_get_g_set. destruct x; cbn [tstate_eqb].
+    - rewrite In_add. tauto.
+    - cbn. split; [intros H; exfalso; apply NR; exact H|discriminate].
+    - cbn. split; [intros H; exfalso; apply NP; exact H|discriminate]. }
+  assert (EO1 : ent_ok s1) by (apply (ent_ok_same s); [exact E1|apply (gi_ent s I)]).
+  assert (GO1 : g_ok s1) by (unfold s1; apply g_ok_g_add; apply (g_ok_same s); try reflexivity; apply (gi_g s I)).
+  assert (X1 : GInvX s1 id).
+  { apply (GInvX_frame s); [|exact EO1|exact GO1|apply GInv_X; exact I].
+    intros id' N. eapply frame_trans; [apply (frame_insert_fresh s id fresh id'); [reflexivity|exact N]|apply frame_g_add; exact N]. }
+  pose proof (start_self s1 id false (fails f KPosGet 1) (fails f KTaskGet 2) (fails f KTaskPut 2) fresh I0 I0
+                EO1 F1 eq_refl eq_refl eq_refl eq_refl eq_refl eq_refl NQ1 G1 ltac:(discriminate)) as [OK KO].
+  cbn zeta in OK, KO. fold r in OK, KO.
+  assert (X2 : GInvX (fst r) id).
+  { apply (GInvX_frame s1); [intros id' N; apply frame_start; exact N|apply ent_ok_start; assumption|apply g_ok_start; exact GO1|exact X1]. }
+  destruct (snd r) eqn:Sn.
+  - apply (GInvX_full _ id X2). apply OK; reflexivity.
+  - destruct (KO eq_refl) as [t' [F' [T' [M' [S' [_ [_ [S0' [R0' [NQ' G']]]]]]]]]]. cbn in M', S'.
+    apply (GInvX_full _ id).
+    + apply (GInvX_frame (fst r)); [intros id' N; apply frame_delete; [apply (gx_ent _ _ X2)|exact N]
+                                   |apply ent_ok_delete, (gx_ent _ _ X2)|apply g_ok_delete, (gx_g _ _ X2)|exact X2].
+    + apply (delete_self (fst r) id false false t' I0); try assumption; try apply (gx_ent _ _ X2).
+      * right. split; [exact S0'|]. split; [exact R0'|exact NQ'].
+      * intros x. rewrite G'. apply G1.
+      * rewrite delete_unfold, F', S'. reflexivity.
+Qed.
+
+(* ---------- every API call preserves the invariant ---------- *)
+Lemma in_mem_ensure s tg id : in_mem (ensure_ent s tg) id = in_mem s id.
+Proof. unfold ensure_ent. destruct (alookup (ents s) tg); reflexivity. Qed.
+Lemma find_ensure s tg id : find_task (ensure_ent s tg) id = find_task s id.
+Proof. unfold ensure_ent. destruct (alookup (ents s) tg); reflexivity. Qed.
+
+Definition is_restart (o : op) : bool := match o with Restart _ => true | _ => false end.
+
+Lemma step_api_ginv s o : is_restart o = false -> GInv s -> GInv (fst (step s o)).
+Proof.
+  intros NR I. destruct o as [id tg aoff f|id f|id f|id f|id f|f]; try discriminate; cbn [step].
+  - (* create *)
+    pose proof (GInv_ensure s tg I) as I1. set (s1 := ensure_ent s tg) in *.
+    destruct (in_mem s1 id) eqn:IM; [exact I1|].
+    destruct (fails f KTaskGet 1 || fails f KPosPut 1 || fails f KTaskPut 1); [exact I1|].
+    pose proof (create_ginv s1 id tg aoff f I1 IM) as C. cbn zeta in C.
+    match goal with |- context [start ?a id false ?b ?c ?d] => change a with (g_add (insert_fresh s1 id {| tid := id; ttarget := tg; auto_off := aoff; mem := Some I0; sto := Some I0; started := 0; reg := 0 |}) id SInitial) end.
+    destruct (start _ id false _ _ _) as [s2 ok]. cbn [fst snd] in *. destruct ok; exact C.
+  - (* pause *)
+    destruct (in_mem s id) as [v|] eqn:IM; [|exact I].
+    set (s1 := match find_task s id with Some t => ensure_ent s (ttarget t) | None => s end).
+    assert (I1 : GInv s1) by (unfold s1; destruct (find_task s id); [apply GInv_ensure|]; exact I).
+    assert (IM1 : in_mem s1 id = Some v) by (unfold s1; destruct (find_task s id); [rewrite in_mem_ensure|]; exact IM).
+    destruct (tstate_eqb (v_state v) SPaused); [exact I1|].
+    pose proof (pause_api_ginv s1 id (fails f KTaskGet 1) (fails f KTaskPut 1) I1 ltac:(rewrite IM1; discriminate)) as X.
+    destruct (pause_with s1 id [SRunning] _ _) as [s2 ok]. exact X.
+  - (* resume *)
+    destruct (in_mem s id) as [v|] eqn:IM; [|exact I].
+    set (s1 := match find_task s id with Some t => ensure_ent s (ttarget t) | None => s end).
+    assert (I1 : GInv s1) by (unfold s1; destruct (find_task s id); [apply GInv_ensure|]; exact I).
+    assert (IM1 : in_mem s1 id = Some v) by (unfold s1; destruct (find_task s id); [rewrite in_mem_ensure|]; exact IM).
+    destruct (tstate_eqb_spec (v_state v) SRunning) as [VR|VR]; [exact I1|].
+    assert (PB : forall t, find_task s1 id = Some t -> pausedb t = true).
+    { intros t F. destruct (in_mem_find _ _ _ IM1) as [t' [F' Mm]]. rewrite F in F'; injection F' as <-.
+      destruct (loaded_facts s1 id t v (gi_task s1 I1 id) F Mm) as [v' [Ss [MV [NI _]]]].
+      unfold pausedb. rewrite Ss. destruct (v_state v') eqn:E; try reflexivity; congruence. }
+    pose proof (resume_ginv s1 id (fails f KPosGet 1) (fails f KTaskGet 1) (fails f KTaskPut 1) I1 ltac:(rewrite IM1; discriminate) PB) as X.
+    destruct (start s1 id false _ _ _) as [s2 ok]. exact X.
+  - (* delete *)
+    destruct (in_mem s id) as [v|] eqn:IM; [|exact I].
+    set (s1 := match find_task s id with Some t => ensure_ent s (ttarget t) | None => s end).
+    assert (I1 : GInv s1) by (unfold s1; destruct (find_task s id); [apply GInv_ensure|]; exact I).
+    assert (IM1 : in_mem s1 id = Some v) by (unfold s1; destruct (find_task s id); [rewrite in_mem_ensure|]; exact IM).
+    pose proof (delete_ginv s1 id (fails f KTaskGet 1) (fails f KCommit 1) I1 ltac:(rewrite IM1; discriminate)) as X.
+    destruct (delete s1 id _ _) as [s2 ok]. exact X.
+  - (* get *)
+    destruct (fails f KTaskGet 1); [exact I|]. destruct (find_task s id) as [t|]; [destruct (sto t)|]; exact I.
+Qed.
+
+(* ---------- the list of task ids ---------- *)
+Definition ids (s : st) : list string := map tid (ts s).
+Lemma ids_upd s id g : (forall t, tid (g t) = tid t) -> ids (upd s id g) = ids s.
+Proof.
+  intros Hg. unfold ids, upd; cbn [ts]. rewrite map_map. apply map_ext. intros t. destruct (String.eqb (tid t) id); [apply Hg|reflexivity].
+Qed.
+Lemma ids_g_set s x l : ids (g_set s x l) = ids s. Proof. unfold ids; rewrite ts_g_set; reflexivity. Qed.
+Lemma ids_g_update s id n o : ids (g_update s id n o) = ids s.
+Proof. unfold g_update. destruct (mem_str id (g_get s o)); [|reflexivity]. unfold g_add, g_delete. rewrite !ids_g_set; reflexivity. Qed.
+Lemma ids_release s id tg : ids (release s id tg) = ids s.
+Proof.
+  rewrite release_unfold. destruct (alookup (ents s) tg) as [e|]; [|reflexivity].
+  destruct (mem_str id (quit e)); cbn zeta; destruct (_ =? 0)%Z; try reflexivity; apply (ids_upd s id reset_counters); reflexivity.
+Qed.
+Lemma ids_update_state s id new guard reason fg fp s' : update_state s id new guard reason fg fp = Some s' -> ids s' = ids s.
+Proof.
+  intros H. destruct (update_state_some _ _ _ _ _ _ _ _ H) as [t [v [_ [_ [_ ->]]]]]. rewrite ids_g_update. apply ids_upd; reflexivity.
+Qed.
+Lemma ids_pause_with s id guard fg fp : ids (fst (pause_with s id guard fg fp)) = ids s.
+Proof.
+  rewrite pause_with_unfold. destruct (update_state s id SPaused guard true fg fp) as [s1|] eqn:U.
+  - pose proof (ids_update_state _ _ _ _ _ _ _ _ U) as E. destruct (find_task s1 id) as [t|]; [|exact E]. destruct (mem t); [|exact E].
+    cbn [fst]. rewrite ids_release, ids_upd by reflexivity. exact E.
+  - destruct guard as [|g0 gl]; [|reflexivity]. destruct (find_task s id) as [t|]; [|reflexivity]. destruct (mem t); [|reflexivity].
+    cbn [fst]. rewrite ids_release, ids_upd by reflexivity. reflexivity.
+Qed.
+Lemma ids_start s id ignore fpg fg fp : ids (fst (start s id ignore fpg fg fp)) = ids s.
+Proof.
+  rewrite start_unfold. destruct (find_task s id) as [t|]; [|reflexivity].
+  destruct (alookup (ents s) (ttarget t)) as [e|]; [|reflexivity]. destruct fpg; [reflexivity|]. cbn zeta.
+  match goal with |- context [update_state ?s1 _ _ _ _ _ _] => set (s1' := s1) end.
+  assert (E1 : ids s1' = ids s) by (unfold s1'; apply (ids_upd s id (bump_reg 1)); reflexivity).
+  destruct (if ignore then Some s1' else update_state s1' id SRunning [SInitial; SPaused] false fg fp) as [s2|] eqn:Af; cbn [fst].
+  - assert (E2 : ids s2 = ids s1') by (destruct ignore; [injection Af as <-; reflexivity|apply (ids_update_state _ _ _ _ _ _ _ _ Af)]).
+    rewrite ids_upd by reflexivity. congruence.
+  - unfold ids in *. cbn [set_ents ts]. fold (ids (upd s1' id (bump_reg (-1)))). rewrite ids_upd by reflexivity. exact E1.
+Qed.
+Lemma ids_delete s id fg fc : ids (fst (delete s id fg fc)) = ids s.
+Proof.
+  rewrite delete_unfold. destruct (find_task s id) as [t|]; [|reflexivity]. destruct fg; [reflexivity|].
+  destruct (sto t) as [v|]; [|reflexivity]. destruct fc; [reflexivity|]. cbn [fst].
+  rewrite ids_release, ids_upd by reflexivity. unfold g_delete. rewrite ids_g_set. apply ids_upd; reflexivity.
+Qed.
+Lemma ids_ensure s tg : ids (ensure_ent s tg) = ids s.
+Proof. unfold ensure_ent. destruct (alookup (ents s) tg); reflexivity. Qed.
+
+Lemma find_in_nodup s t : NoDup (ids s) -> In t (ts s) -> find_task s (tid t) = Some t.
+Proof.
+  unfold ids, find_task. induction (ts s) as [|x r IH]; cbn; intros ND H; [tauto|].
+  inversion ND as [|? ? Nx Nr]; subst. destruct H as [->|H].
+  - rewrite String.eqb_refl; reflexivity.
+  - destruct (String.eqb_spec (tid x) (tid t)) as [E|N]; [|apply IH; assumption].
+    exfalso. apply Nx. rewrite E. apply in_map; exact H.
+Qed.
+
+(* ---------- no call ever produces a stored-but-not-loaded task (only a crash does) ---------- *)
+Definition unloaded (s : st) (id : string) : Prop := exists t, find_task s id = Some t /\ mem t = None /\ sto t <> None.
+
+Lemma unl_upd s id g id' : (forall t, tid (g t) = tid t) ->
+  (forall t, mem (g t) = None -> sto (g t) <> None -> mem t = None /\ sto t <> None) ->
+  unloaded (upd s id g) id' -> unloaded s id'.
+Proof.
+  intros Hg Hn [t' [F [M S]]]. rewrite find_upd in F by exact Hg. destruct (String.eqb id id'); [|exists t'; auto].
+  destruct (find_task s id') as [t|] eqn:F0; [|discriminate]. cbn in F. injection F as <-. exists t. split; [exact F0|]. apply Hn; assumption.
+Qed.
+Lemma unl_same s s' id' : (forall i, find_task s' i = find_task s i) -> unloaded s' id' -> unloaded s id'.
+Proof. intros E [t H]. rewrite E in H. exists t; exact H. Qed.
+
+Lemma unl_release s id tg id' : unloaded (release s id tg) id' -> unloaded s id'.
+Proof.
+  rewrite release_unfold. destruct (alookup (ents s) tg) as [e|]; [|tauto].
+  destruct (mem_str id (quit e)); cbn zeta; destruct (_ =? 0)%Z; intros H; try exact H.
+  all: apply (unl_upd s id reset_counters id'); [reflexivity|cbn; tauto|]; apply (unl_same _ _ id' (fun i => eq_refl)) in H; exact H.
+Qed.
+Lemma unl_update_state s id new guard reason fg fp s' id' :
+  update_state s id new guard reason fg fp = Some s' -> unloaded s' id' -> unloaded s id'.
+Proof.
+  intros H U. destruct (update_state_some _ _ _ _ _ _ _ _ H) as [t [v [F [S [_ ->]]]]].
+  apply (unl_same (upd s id (with_sto (Some {| v_state := new; v_reason := reason |})))) in U; [|intros i; apply find_g_update].
+  destruct U as [t' [F' [M' S']]]. rewrite find_upd in F' by reflexivity.
+  destruct (String.eqb_spec id id') as [<-|N]; [|exists t'; auto].
+  rewrite F in F'. injection F' as <-. exists t. cbn in M'. split; [exact F|]. split; [exact M'|congruence].
+Qed.
+Lemma unl_pause_with s id guard fg fp id' : unloaded (fst (pause_with s id guard fg fp)) id' -> unloaded s id'.
+Proof.
+  rewrite pause_with_unfold. destruct (update_state s id SPaused guard true fg fp) as [s1|] eqn:U.
+  - intros H. apply (unl_update_state _ _ _ _ _ _ _ _ id' U).
+    destruct (find_task s1 id) as [t|]; [|exact H]. destruct (mem t); [|exact H]. cbn [fst] in H.
+    apply unl_release in H. apply (unl_upd s1 id (with_mem (Some P)) id') in H; [exact H|reflexivity|cbn; intros; discriminate].
+  - destruct guard as [|g0 gl]; [|tauto]. destruct (find_task s id) as [t|]; [|tauto]. destruct (mem t); [|tauto]. cbn [fst].
+    intros H. apply unl_release in H. apply (unl_upd s id (with_mem (Some P)) id') in H; [exact H|reflexivity|cbn; intros; discriminate].
+Qed.
+Lemma unl_start s id ignore fpg fg fp id' : unloaded (fst (start s id ignore fpg fg fp)) id' -> unloaded s id'.
+Proof.
+  rewrite start_unfold. destruct (find_task s id) as [t|]; [|tauto].
+  destruct (alookup (ents s) (ttarget t)) as [e|]; [|tauto]. destruct fpg; [tauto|]. cbn zeta.
+  match goal with |- context [update_state ?s1 _ _ _ _ _ _] => set (s1' := s1) end.
+  assert (U1 : unloaded s1' id' -> unloaded s id').
+  { intros H. apply (unl_same (upd s id (bump_reg 1))) in H; [|intros i; reflexivity].
+    apply (unl_upd s id (bump_reg 1) id') in H; [exact H|reflexivity|cbn; tauto]. }
+  destruct (if ignore then Some s1' else update_state s1' id SRunning [SInitial; SPaused] false fg fp) as [s2|] eqn:Af; cbn [fst]; intros H.
+  - apply U1. apply (unl_upd s2 id now_running id') in H; [|reflexivity|cbn; intros; discriminate].
+    destruct ignore; [injection Af as <-; exact H|apply (unl_update_state _ _ _ _ _ _ _ _ id' Af H)].
+  - apply U1. apply (unl_same (upd s1' id (bump_reg (-1)))) in H; [|intros i; reflexivity].
+    apply (unl_upd s1' id (bump_reg (-1)) id') in H; [exact H|reflexivity|cbn; tauto].
+Qed.
+Lemma unl_delete s id fg fc id' : unloaded (fst (delete s id fg fc)) id' -> unloaded s id'.
+Proof.
+  rewrite delete_unfold. destruct (find_task s id) as [t|]; [|tauto]. destruct fg; [tauto|].
+  destruct (sto t) as [v|]; [|tauto]. destruct fc; [tauto|]. cbn [fst]. intros H.
+  apply unl_release in H. destruct H as [t' [F' [M' S']]].
+  rewrite find_upd in F' by reflexivity. rewrite find_g_delete, find_upd in F' by reflexivity.
+  destruct (String.eqb id id'); [|exists t'; auto].
+  destruct (find_task s id') as [t0|]; [|discriminate]. cbn in F'. injection F' as <-. cbn in S'. congruence.
+Qed.
+
+(* ---------- crash and reload ---------- *)
+Definition wipe (t : trec) : trec :=
+  {| tid := tid t; ttarget := ttarget t; auto_off := auto_off t; mem := None; sto := sto t; started := 0; reg := 0 |}.
+
+Lemma fold_ensure_prop (Pr : st -> Prop) (l : list trec) s :
+  Pr s -> (forall s tg, Pr s -> Pr (ensure_ent s tg)) -> Pr (fold_left (fun s t => ensure_ent s (ttarget t)) l s).
+Proof. intros H Hs. revert s H. induction l as [|t r IH]; cbn; intros s H; [exact H|]. apply IH, Hs, H. Qed.
+
+Lemma find_wiped l id : find (fun t => String.eqb (tid t) id) (map wipe l) = option_map wipe (find (fun t => String.eqb (tid t) id) l).
+Proof. induction l as [|t r IH]; cbn; [reflexivity|]. destruct (String.eqb (tid t) id); [reflexivity|exact IH]. Qed.
+
+Lemma crashed_props s0 :
+  GInv (crashed s0) /\ ts (crashed s0) = map wipe (ts s0)
+  /\ (forall id t, find_task (crashed s0) id = Some t -> mem t = None /\ started t = 0%Z /\ reg t = 0%Z).
+Proof.
+  unfold crashed. set (sr := {| ts := _; ents := []; gi := []; gr := []; gp := [] |}).
+  apply (fold_ensure_prop (fun s => GInv s /\ ts s = map wipe (ts s0)
+                                   /\ (forall id t, find_task s id = Some t -> mem t = None /\ started t = 0%Z /\ reg t = 0%Z))).
+  - assert (FW : forall id t, find_task sr id = Some t -> tid t = id /\ mem t = None /\ started t = 0%Z /\ reg t = 0%Z).
+    { intros id t F. split; [apply (find_task_tid sr id t F)|].
+      unfold find_task, sr in F; cbn [ts] in F. change (map _ (ts s0)) with (map wipe (ts s0)) in F. rewrite find_wiped in F.
+      destruct (find _ (ts s0)) as [t0|]; [|discriminate]. injection F as <-. cbn. auto. }
+    split; [|split; [reflexivity|intros id t F; apply (FW id t F)]].
+    constructor.
+    + intros id. unfold task_ok. split; [cbn; tauto|]. destruct (find_task sr id) as [t|] eqn:F.
+      * destruct (FW id t F) as [T [M [S0 R0]]].
+        assert (A0 : activeb t = false) by (unfold activeb, loadedb; rewrite M; reflexivity).
+        assert (L0 : lpausedb t = false) by (unfold lpausedb, loadedb; rewrite M; reflexivity).
+        split; [exact T|]. split; [unfold good_task; rewrite M; split; assumption|].
+        split; [rewrite A0; cbn; split; [tauto|discriminate]|]. split; [rewrite L0; cbn; split; [tauto|discriminate]|].
+        split; [|rewrite A0; discriminate].
+        intros tg. rewrite A0. split; [intros [e [H _]]; discriminate|intros [_ H]; discriminate].
+      * cbn. repeat split; try tauto. intros tg [e [H _]]; discriminate.
+    + intros tg e H; discriminate.
+    + repeat split; constructor.
+  - intros s tg [I [T U]]. split; [apply GInv_ensure; exact I|]. split.
+    + unfold ensure_ent. destruct (alookup (ents s) tg); exact T.
+    + intros id t F. rewrite find_ensure in F. apply (U id t F).
+Qed.
+
+Lemma update_state_plain s id t v new reason :
+  find_task s id = Some t -> sto t = Some v ->
+  update_state s id new [] reason false false
+  = Some (g_update (upd s id (with_sto (Some {| v_state := new; v_reason := reason |}))) id new (v_state v)).
+Proof. intros F S. unfold update_state. rewrite F, S. reflexivity. Qed.
+
+Lemma reload_one_ok f s k t t' v :
+  GInv s -> find_task s (tid t) = Some t' -> mem t' = None -> sto t' = Some v -> sto t = Some v -> auto_off t' = auto_off t ->
+  let s' := fst (reload_one f (s, k) t) in
+  GInv s' /\ (forall id', id' <> tid t -> find_task s' id' = find_task s id') /\ ~ unloaded s' (tid t)
+  /\ (forall id', unloaded s' id' -> unloaded s id') /\ ids s' = ids s.
+Proof.
+  intros I F M' S' St AO. set (id := tid t) in *.
+  unfold reload_one. rewrite St. cbn zeta. fold id.
+  destruct (gi_task s I id) as [GI0 TK]. rewrite F in TK. destruct TK as [T [Gd [Rr [Pp [Q _]]]]].
+  unfold good_task in Gd. rewrite M' in Gd. destruct Gd as [S0 R0].
+  assert (A0 : activeb t' = false) by (unfold activeb, loadedb; rewrite M'; reflexivity).
+  assert (L0 : lpausedb t' = false) by (unfold lpausedb, loadedb; rewrite M'; reflexivity).
+  assert (NQ : forall tg, ~ in_quit s tg id) by (intros tg H; apply Q in H; rewrite A0 in H; destruct H; discriminate).
+  set (s1 := g_add (set_mem s id (Some v)) id (v_state v)).
+  set (t1 := with_mem (Some v) t').
+  assert (F1 : find_task s1 id = Some t1).
+  { unfold s1, set_mem. rewrite find_g_add, find_upd by reflexivity. rewrite String.eqb_refl, F; reflexivity. }
+  assert (E1 : ents s1 = ents s) by (unfold s1; rewrite ents_g_add; reflexivity).
+  assert (NQ1 : forall tg, ~ in_quit s1 tg id) by (intros tg H; rewrite (in_quit_same s s1 tg id E1) in H; apply (NQ tg H)).
+  assert (G1 : forall x, In id (g_get s1 x) <-> x = v_state v).
+  { intros x. unfold s1, g_add, set_mem. rewrite g_get_g_set. destruct (tstate_eqb_spec (v_state v) x) as [<-|N].
+    - rewrite In_add; tauto.
+    - rewrite g_get_upd. split; [|congruence]. intros H. exfalso. destruct x; cbn in H.
+      + apply GI0, H. + apply Rr in H; rewrite A0 in H; discriminate. + apply Pp in H; rewrite L0 in H; discriminate. }
+  assert (EO1 : ent_ok s1) by (apply (ent_ok_same s); [exact E1|apply (gi_ent s I)]).
+  assert (GO1 : g_ok s1) by (unfold s1; apply g_ok_g_add; apply (g_ok_same s); try reflexivity; apply (gi_g s I)).
+  assert (FR1 : forall id', id' <> id -> frame s s1 id').
+  { intros id' N. unfold s1, set_mem. eapply frame_trans; [apply (frame_upd s id (with_mem (Some v)) id'); [reflexivity|exact N]|apply frame_g_add; exact N]. }
+  assert (X1 : GInvX s1 id) by (apply (GInvX_frame s); [exact FR1|exact EO1|exact GO1|apply GInv_X; exact I]).
+  assert (U1 : forall id', unloaded s1 id' -> unloaded s id' /\ id' <> id).
+  { intros id' [tx [Fx [Mx Sx]]]. destruct (String.eqb_spec id' id) as [->|N].
+    - rewrite F1 in Fx; injection Fx as <-. cbn in Mx; discriminate.
+    - split; [|exact N]. exists tx. rewrite <- (f_find _ _ _ (FR1 id' N)). auto. }
+  assert (ID1 : ids s1 = ids s) by (unfold s1, g_add, set_mem; rewrite ids_g_set; apply ids_upd; reflexivity).
+  assert (T1 : tid t1 = id) by exact T.
+  (* a helper for the two places where the task ends up paused by pause_with [] *)
+  assert (PW : forall sx tx, GInvX sx id -> find_task sx id = Some tx -> tid tx = id -> mem tx = Some v -> sto tx = Some v ->
+                 started tx = 0%Z -> reg tx = 0%Z -> (forall tg, ~ in_quit sx tg id) -> (forall x, In id (g_get sx x) <-> x = v_state v) ->
+                 GInv (fst (pause_with sx id [] false false))).
+  { intros sx tx GX Fx Tx Mx Sx S0x R0x NQx Gx.
+    apply (GInvX_full _ id).
+    - apply (GInvX_frame sx); [intros id' N; apply frame_pause_with; [apply (gx_ent _ _ GX)|exact N]
+                              |apply ent_ok_pause_with, (gx_ent _ _ GX)|apply g_ok_pause_with, (gx_g _ _ GX)|exact GX].
+    - pose proof (update_state_plain sx id tx v SPaused true Fx Sx) as UU.
+      eapply (pause_self sx id [] false false tx v v); [apply (gx_ent _ _ GX)|exact Fx|exact Tx|exact Mx|exact Sx|right; auto|exact Gx| |exact UU].
+      destruct (tstate_eqb_spec (v_state v) SInitial) as [E|N]; [right; exact E|left].
+      intros H. apply (proj1 (Gx SInitial)) in H. congruence. }
+  destruct (auto_off t) eqn:AOt.
+  - (* auto start disabled *)
+    destruct (tstate_eqb_spec (v_state v) SPaused) as [VP|VP]; cbn [fst].
+    + split; [|split; [|split; [|split]]].
+      * apply (GInvX_full _ id X1). apply (idle_task_ok s1 id t1 v v); try assumption; try reflexivity. intros x. rewrite G1, VP; tauto.
+      * intros id' N. apply (f_find _ _ _ (FR1 id' N)).
+      * intros H. destruct (U1 _ H) as [_ N]; congruence.
+      * intros id' H. apply (U1 id' H).
+      * exact ID1.
+    + split; [|split; [|split; [|split]]].
+      * apply (PW s1 t1); try assumption; reflexivity.
+      * intros id' N. rewrite (f_find _ _ _ (frame_pause_with s1 id [] false false id' EO1 N)). apply (f_find _ _ _ (FR1 id' N)).
+      * intros H. apply unl_pause_with in H. destruct (U1 _ H) as [_ N]; congruence.
+      * intros id' H. apply unl_pause_with in H. apply (U1 id' H).
+      * rewrite ids_pause_with. exact ID1.
+  - (* started (or paused when the start fails) *)
+    set (r := start s1 id (tstate_eqb (v_state v) SRunning) (fails f KPosGet (S k)) false false).
+    pose proof (start_self s1 id (tstate_eqb (v_state v) SRunning) (fails f KPosGet (S k)) false false t1 v v
+                  EO1 F1 T1 eq_refl S' eq_refl S0 R0 NQ1 G1) as SS.
+    assert (IG : tstate_eqb (v_state v) SRunning = true -> v_state v = SRunning) by (destruct (tstate_eqb_spec (v_state v) SRunning); congruence).
+    specialize (SS IG). cbn zeta in SS. fold r in SS. destruct SS as [OK KO].
+    assert (X2 : GInvX (fst r) id).
+    { apply (GInvX_frame s1); [intros id' N; apply frame_start; exact N|apply ent_ok_start; assumption|apply g_ok_start; exact GO1|exact X1]. }
+    destruct (snd r) eqn:Sn; cbn [fst].
+    + split; [|split; [|split; [|split]]].
+      * apply (GInvX_full _ id X2). apply OK; reflexivity.
+      * intros id' N. unfold r. rewrite (f_find _ _ _ (frame_start s1 id _ _ _ _ id' N)). apply (f_find _ _ _ (FR1 id' N)).
+      * intros H. apply unl_start in H. destruct (U1 _ H) as [_ N]; congruence.
+      * intros id' H. apply unl_start in H. apply (U1 id' H).
+      * unfold r. rewrite ids_start. exact ID1.
+    + destruct (KO eq_refl) as [t2 [F2 [T2 [M2 [S2 [_ [_ [S02 [R02 [NQ2 G2]]]]]]]]]]. cbn [mem sto t1 with_mem] in M2, S2. rewrite S' in S2.
+      split; [|split; [|split; [|split]]].
+      * apply (PW (fst r) t2); try assumption. intros x. rewrite G2. apply G1.
+      * intros id' N. rewrite (f_find _ _ _ (frame_pause_with (fst r) id [] false false id' (gx_ent _ _ X2) N)).
+        unfold r. rewrite (f_find _ _ _ (frame_start s1 id _ _ _ _ id' N)). apply (f_find _ _ _ (FR1 id' N)).
+      * intros H. apply unl_pause_with in H. apply unl_start in H. destruct (U1 _ H) as [_ N]; congruence.
+      * intros id' H. apply unl_pause_with in H. apply unl_start in H. apply (U1 id' H).
+      * rewrite ids_pause_with. unfold r. rewrite ids_start. exact ID1.
+Qed.
+
+Lemma reload_fold f : forall l s k,
+  GInv s -> NoDup (map tid l) ->
+  (forall t, In t l -> exists v, sto t = Some v /\ find_task s (tid t) = Some t /\ mem t = None) ->
+  let s' := fst (fold_left (reload_one f) l (s, k)) in
+  GInv s' /\ ids s' = ids s /\ (forall id', unloaded s' id' -> unloaded s id' /\ ~ In id' (map tid l)).
+Proof.
+  induction l as [|t r IH]; intros s k I ND H; cbn [fold_left].
+  - cbn. split; [exact I|]. split; [reflexivity|]. intros id' U; split; [exact U|tauto].
+  - inversion ND as [|? ? Nt Nr]; subst.
+    destruct (H t (or_introl eq_refl)) as [v [St [F M]]].
+    pose proof (reload_one_ok f s k t t v I F M St St eq_refl) as [I1 [FO [NU [UU ID]]]]. cbn zeta in *.
+    destruct (reload_one f (s, k) t) as [s1 k1] eqn:RO. cbn [fst] in *.
+    assert (H1 : forall t2, In t2 r -> exists v2, sto t2 = Some v2 /\ find_task s1 (tid t2) = Some t2 /\ mem t2 = None).
+    { intros t2 In2. destruct (H t2 (or_intror In2)) as [v2 [S2 [F2 M2]]]. exists v2. split; [exact S2|]. split; [|exact M2].
+      rewrite FO; [exact F2|]. intros E. apply Nt. rewrite <- E. apply in_map; exact In2. }
+    destruct (IH s1 k1 I1 Nr H1) as [I2 [ID2 U2]]. cbn zeta in *.
+    split; [exact I2|]. split; [congruence|].
+    intros id' U. destruct (U2 id' U) as [U1 NI]. split; [apply UU; exact U1|].
+    cbn [map In]. intros [E|E]; [|tauto]. subst id'. apply NU; exact U1.
+Qed.
+
+Lemma NoDup_map_filter {A B} (f : A -> B) (p : A -> bool) l : NoDup (map f l) -> NoDup (map f (filter p l)).
+Proof.
+  induction l as [|x r IH]; cbn; [auto|]. intros H; inversion H as [|? ? Hn Hr]; subst.
+  destruct (p x); cbn; [constructor|]; auto.
+  intros Hin; apply Hn. apply in_map_iff in Hin; destruct Hin as [y [E Hy]].
+  apply filter_In in Hy; destruct Hy as [Hy _]. apply in_map_iff; exists y; auto.
+Qed.
+
+Lemma ids_wipe l : map tid (map wipe l) = map tid l.
+Proof. rewrite map_map. reflexivity. Qed.
+
+Record Inv (s : st) : Prop := { inv_g : GInv s; inv_ids : NoDup (ids s); inv_loaded : forall id, ~ unloaded s id }.
+
+Lemma restart_inv s0 f : NoDup (ids s0) -> Inv (fst (step s0 (Restart f))).
+Proof.
+  intros ND. cbn [step fst].
+  destruct (crashed_props s0) as [I [TS UL]]. set (s := crashed s0) in *.
+  assert (NDs : NoDup (ids s)) by (unfold ids; rewrite TS, ids_wipe; exact ND).
+  set (stored := filter (fun t => match sto t with Some _ => true | None => false end) (ts s)).
+  assert (H : forall t, In t stored -> exists v, sto t = Some v /\ find_task s (tid t) = Some t /\ mem t = None).
+  { intros t Hin. apply filter_In in Hin. destruct Hin as [Hin Hs]. destruct (sto t) as [v|] eqn:St; [|discriminate].
+    exists v. split; [reflexivity|]. pose proof (find_in_nodup s t NDs Hin) as F. split; [exact F|]. apply (UL (tid t) t F). }
+  destruct (reload_fold f stored s 0%nat I (NoDup_map_filter tid _ (ts s) NDs) H) as [I2 [ID2 U2]]. cbn zeta in *.
+  constructor; [exact I2|rewrite ID2; exact NDs|].
+  intros id U. destruct (U2 id U) as [[t [F [M S]]] NI]. apply NI.
+  assert (Hin : In t stored).
+  { apply filter_In. split; [unfold find_task in F; apply find_some in F; tauto|]. destruct (sto t); [reflexivity|congruence]. }
+  rewrite <- (find_task_tid s id t F). apply in_map; exact Hin.
+Qed.
+
+(* ids and loadedness through the API calls *)
+Lemma unl_insert_fresh s id fresh id' : tid fresh = id -> mem fresh <> None -> unloaded (insert_fresh s id fresh) id' -> unloaded s id'.
+Proof.
+  intros T M [t [F [Mt St]]]. rewrite find_insert_fresh in F by exact T. destruct (String.eqb id' id).
+  - injection F as <-. congruence.
+  - exists t; auto.
+Qed.
+Lemma unl_ensure s tg id' : unloaded (ensure_ent s tg) id' -> unloaded s id'.
+Proof. apply unl_same. intros i; apply find_ensure. Qed.
+Lemma unl_g_add s id x id' : unloaded (g_add s id x) id' -> unloaded s id'.
+Proof. apply unl_same. intros i; apply find_g_add. Qed.
+
+Lemma NoDup_insert (l : list string) id : NoDup l -> NoDup (filter (fun y => negb (String.eqb y id)) l ++ [id])%list.
+Proof.
+  intros ND. induction l as [|x r IH]; cbn; [constructor; [tauto|constructor]|].
+  inversion ND as [|? ? Nx Nr]; subst. destruct (String.eqb_spec x id) as [E|N]; cbn [negb]; [apply IH; exact Nr|].
+  cbn. constructor; [|apply IH; exact Nr]. rewrite in_app_iff, filter_In. cbn. intros [[A _]|[A|[]]]; [tauto|congruence].
+Qed.
+Lemma ids_insert_fresh s id fresh : tid fresh = id ->
+  ids (insert_fresh s id fresh) = (filter (fun y => negb (String.eqb y id)) (ids s) ++ [id])%list.
+Proof.
+  intros T. unfold ids, insert_fresh; cbn [ts]. rewrite map_app; cbn. rewrite T. f_equal.
+  induction (ts s) as [|t r IH]; cbn; [reflexivity|]. destruct (String.eqb (tid t) id); cbn; [exact IH|f_equal; exact IH].
+Qed.
+
+Theorem step_inv s o : Inv s -> Inv (fst (step s o)).
+Proof.
+  intros [I ND AL]. destruct (is_restart o) eqn:R.
+  - destruct o; try discriminate. apply restart_inv; exact ND.
+  - constructor; [apply step_api_ginv; assumption| |].
+    + destruct o as [id tg aoff f|id f|id f|id f|id f|f]; try discriminate; cbn [step].
+      * rewrite <- (ids_ensure s tg) in ND. set (s1 := ensure_ent s tg) in *.
+        destruct (in_mem s1 id); [exact ND|]. destruct (_ || _); [exact ND|].
+        match goal with |- context [start ?a id false ?b ?c ?d] => change a with (g_add (insert_fresh s1 id {| tid := id; ttarget := tg; auto_off := aoff; mem := Some I0; sto := Some I0; started := 0; reg := 0 |}) id SInitial); set (r := start _ id false b c d) end.
+        assert (E : ids (fst r) = (filter (fun y => negb (String.eqb y id)) (ids s1) ++ [id])%list).
+        { unfold r. rewrite ids_start. unfold g_add. rewrite ids_g_set. apply ids_insert_fresh; reflexivity. }
+        destruct r as [s2 ok]; cbn [fst] in *. destruct ok; cbn [fst]; [|rewrite ids_delete]; rewrite E; apply NoDup_insert; exact ND.
+      * destruct (in_mem s id); [|exact ND]. set (s1 := match find_task s id with Some t => ensure_ent s (ttarget t) | None => s end).
+        assert (E1 : ids s1 = ids s) by (unfold s1; destruct (find_task s id); [apply ids_ensure|reflexivity]).
+        destruct (tstate_eqb _ SPaused); [cbn [fst]; rewrite E1; exact ND|].
+        pose proof (ids_pause_with s1 id [SRunning] (fails f KTaskGet 1) (fails f KTaskPut 1)) as E. destruct (pause_with s1 id _ _ _) as [s2 ok]. cbn [fst] in *. congruence.
+      * destruct (in_mem s id); [|exact ND]. set (s1 := match find_task s id with Some t => ensure_ent s (ttarget t) | None => s end).
+        assert (E1 : ids s1 = ids s) by (unfold s1; destruct (find_task s id); [apply ids_ensure|reflexivity]).
+        destruct (tstate_eqb _ SRunning); [cbn [fst]; rewrite E1; exact ND|].
+        pose proof (ids_start s1 id false (fails f KPosGet 1) (fails f KTaskGet 1) (fails f KTaskPut 1)) as E. destruct (start s1 id _ _ _ _) as [s2 ok]. cbn [fst] in *. congruence.
+      * destruct (in_mem s id); [|exact ND]. set (s1 := match find_task s id with Some t => ensure_ent s (ttarget t) | None => s end).
+        assert (E1 : ids s1 = ids s) by (unfold s1; destruct (find_task s id); [apply ids_ensure|reflexivity]).
+        pose proof (ids_delete s1 id (fails f KTaskGet 1) (fails f KCommit 1)) as E. destruct (delete s1 id _ _) as [s2 ok]. cbn [fst] in *. congruence.
+      * destruct (fails f KTaskGet 1); [exact ND|]. destruct (find_task s id) as [t|]; [destruct (sto t)|]; exact ND.
+    + intros id' U. destruct o as [id tg aoff f|id f|id f|id f|id f|f]; try discriminate; cbn [step] in U.
+      * assert (AL1 : forall i, ~ unloaded (ensure_ent s tg) i) by (intros i H; apply unl_ensure in H; apply (AL i H)).
+        set (s1 := ensure_ent s tg) in *.
+        destruct (in_mem s1 id); [apply (AL1 id' U)|]. destruct (_ || _); [apply (AL1 id' U)|].
+        match type of U with context [start ?a id false ?b ?c ?d] => change a with (g_add (insert_fresh s1 id {| tid := id; ttarget := tg; auto_off := aoff; mem := Some I0; sto := Some I0; started := 0; reg := 0 |}) id SInitial) in U; set (r := start _ id false b c d) in U end.
+        assert (X : unloaded (fst r) id' -> False).
+        { intros H. unfold r in H. apply unl_start, unl_g_add, unl_insert_fresh in H; [apply (AL1 id' H)|reflexivity|cbn; discriminate]. }
+        destruct r as [s2 ok]; cbn [fst] in *. destruct ok; cbn [fst] in U; [|apply unl_delete in U]; apply X; exact U.
+      * destruct (in_mem s id); [|apply (AL id' U)]. set (s1 := match find_task s id with Some t => ensure_ent s (ttarget t) | None => s end) in *.
+        assert (AL1 : forall i, ~ unloaded s1 i) by (intros i H; unfold s1 in H; destruct (find_task s id); [apply unl_ensure in H|]; apply (AL i H)).
+        destruct (tstate_eqb _ SPaused); [apply (AL1 id' U)|].
+        pose proof (unl_pause_with s1 id [SRunning] (fails f KTaskGet 1) (fails f KTaskPut 1) id') as E. destruct (pause_with s1 id _ _ _) as [s2 ok]. cbn [fst] in *. apply (AL1 id'), E, U.
+      * destruct (in_mem s id); [|apply (AL id' U)]. set (s1 := match find_task s id with Some t => ensure_ent s (ttarget t) | None => s end) in *.
+        assert (AL1 : forall i, ~ unloaded s1 i) by (intros i H; unfold s1 in H; destruct (find_task s id); [apply unl_ensure in H|]; apply (AL i H)).
+        destruct (tstate_eqb _ SRunning); [apply (AL1 id' U)|].
+        pose proof (unl_start s1 id false (fails f KPosGet 1) (fails f KTaskGet 1) (fails f KTaskPut 1) id') as E. destruct (start s1 id _ _ _ _) as [s2 ok]. cbn [fst] in *. apply (AL1 id'), E, U.
+      * destruct (in_mem s id); [|apply (AL id' U)]. set (s1 := match find_task s id with Some t => ensure_ent s (ttarget t) | None => s end) in *.
+        assert (AL1 : forall i, ~ unloaded s1 i) by (intros i H; unfold s1 in H; destruct (find_task s id); [apply unl_ensure in H|]; apply (AL i H)).
+        pose proof (unl_delete s1 id (fails f KTaskGet 1) (fails f KCommit 1) id') as E. destruct (delete s1 id _ _) as [s2 ok]. cbn [fst] in *. apply (AL1 id'), E, U.
+      * destruct (fails f KTaskGet 1); [apply (AL id' U)|]. destruct (find_task s id) as [t|]; [destruct (sto t)|]; apply (AL id' U).
+Qed.
+
+(* ---------- every reachable state ---------- *)
+Lemma init_inv : Inv init.
+Proof.
+  constructor; [exact init_ginv|constructor|]. intros id [t [F _]]. discriminate.
+Qed.
+Lemma run_app ops o : run (ops ++ [o]) = fst (step (run ops) o).
+Proof. unfold run; rewrite fold_left_app; reflexivity. Qed.
+Theorem run_inv ops : Inv (run ops).
+Proof. induction ops as [|o r IH] using rev_ind; [exact init_inv|]. rewrite run_app. apply step_inv; exact IH. Qed.
+
+(* the statements of Props.v *)
+Theorem views_agree ops id t : find_task (run ops) id = Some t ->
+  match mem t, sto t with
+  | None, None => True
+  | Some m, Some v => v_state m = v_state v /\ v_state v <> SInitial
+  | _, _ => False
+  end.
+Proof.
+  intros F. destruct (run_inv ops) as [I _ AL]. destruct (gi_task _ I id) as [_ TK]. rewrite F in TK.
+  destruct TK as [_ [Gd _]]. unfold good_task in Gd.
+  destruct (mem t) as [m|] eqn:M, (sto t) as [v|] eqn:S; try tauto.
+  exfalso. apply (AL id). exists t. rewrite M, S. repeat split; [exact F|discriminate].
+Qed.
+
+Theorem gauges_agree ops :
+  let s := run ops in
+  gi s = [] /\ NoDup (gr s) /\ NoDup (gp s)
+  /\ (forall id, In id (gr s) <-> exists t, find_task s id = Some t /\ runningb t = true)
+  /\ (forall id, In id (gp s) <-> exists t, find_task s id = Some t /\ pausedb t = true).
+Proof.
+  cbn zeta. destruct (run_inv ops) as [I _ AL]. set (s := run ops) in *.
+  assert (LD : forall id t, find_task s id = Some t -> sto t <> None -> loadedb t = true).
+  { intros id t F S. unfold loadedb. destruct (mem t) eqn:M; [reflexivity|]. exfalso. apply (AL id). exists t; auto. }
+  split. { destruct (gi s) as [|x r] eqn:E; [reflexivity|]. exfalso. destruct (gi_task s I x) as [N _]. apply N. rewrite E; left; reflexivity. }
+  destruct (gi_g s I) as [_ [N1 N2]]. split; [exact N1|]. split; [exact N2|]. split; intros id.
+  - destruct (gi_task s I id) as [_ TK]. destruct (find_task s id) as [t|] eqn:F.
+    + destruct TK as [_ [_ [Rr _]]]. rewrite Rr. unfold activeb. split.
+      * intros H. apply andb_prop in H. exists t; tauto.
+      * intros [t' [E R]]. injection E as <-. rewrite R, andb_true_r. apply (LD id t F). unfold runningb in R. destruct (sto t); [discriminate|discriminate].
+    + destruct TK as [N _]. split; [tauto|]. intros [t' [E _]]; discriminate.
+  - destruct (gi_task s I id) as [_ TK]. destruct (find_task s id) as [t|] eqn:F.
+    + destruct TK as [_ [_ [_ [Pp _]]]]. rewrite Pp. unfold lpausedb. split.
+      * intros H. apply andb_prop in H. exists t; tauto.
+      * intros [t' [E R]]. injection E as <-. rewrite R, andb_true_r. apply (LD id t F). unfold pausedb in R. destruct (sto t); [discriminate|discriminate].
+    + destruct TK as [_ [N _]]. split; [tauto|]. intros [t' [E _]]; discriminate.
+Qed.
+
+Theorem cleanup ops :
+  let s := run ops in
+  (forall id t, find_task s id = Some t ->
+     if runningb t then started t = 1%Z /\ reg t = 1%Z /\ in_quit s (ttarget t) id
+     else started t = 0%Z /\ reg t = 0%Z /\ forall tg, ~ in_quit s tg id)
+  /\ (forall tg e, alookup (ents s) tg = Some e ->
+        NoDup (quit e) /\ refcnt e = Z.of_nat (List.length (quit e))
+        /\ forall id, In id (quit e) <-> exists t, find_task s id = Some t /\ ttarget t = tg /\ runningb t = true).
+Proof.
+  cbn zeta. destruct (run_inv ops) as [I _ AL]. set (s := run ops) in *. split.
+  - intros id t F. destruct (gi_task s I id) as [_ TK]. rewrite F in TK. destruct TK as [T [Gd [_ [_ [Q _]]]]].
+    unfold good_task in Gd. unfold runningb.
+    destruct (mem t) as [m|] eqn:M.
+    + destruct (sto t) as [v|] eqn:S; [|tauto]. destruct Gd as [_ [NI [GR GP]]].
+      assert (AB : activeb t = tstate_eqb (v_state v) SRunning) by (unfold activeb, loadedb, runningb; rewrite M, S; reflexivity).
+      destruct (tstate_eqb_spec (v_state v) SRunning) as [VR|VR].
+      * destruct (GR VR) as [A B]. split; [exact A|]. split; [exact B|]. apply Q. rewrite AB. auto.
+      * assert (VP : v_state v = SPaused) by (destruct (v_state v); congruence). destruct (GP VP) as [A B].
+        split; [exact A|]. split; [exact B|]. intros tg H. apply Q in H. rewrite AB in H. destruct H; discriminate.
+    + destruct (sto t) as [v|] eqn:S.
+      * exfalso. apply (AL id). exists t. rewrite M, S. repeat split; [exact F|discriminate].
+      * destruct Gd as [A B]. split; [exact A|]. split; [exact B|]. intros tg H. apply Q in H.
+        unfold activeb, loadedb in H. rewrite M in H. destruct H; discriminate.
+  - intros tg e A. destruct (gi_ent s I tg e A) as [ND RC]. split; [exact ND|]. split; [exact RC|].
+    intros id. destruct (gi_task s I id) as [_ TK]. destruct (find_task s id) as [t|] eqn:F.
+    + destruct TK as [_ [_ [_ [_ [Q _]]]]]. split.
+      * intros B. assert (IQ : in_quit s tg id) by (exists e; split; assumption). apply Q in IQ. destruct IQ as [TG AC].
+        exists t. split; [reflexivity|]. split; [exact TG|]. unfold activeb in AC. apply andb_prop in AC; tauto.
+      * intros [t' [E [TG R]]]. injection E as <-.
+        assert (AC : activeb t = true).
+        { unfold activeb. rewrite R, andb_true_r. unfold loadedb. destruct (mem t) eqn:M; [reflexivity|].
+          exfalso. apply (AL id). exists t. repeat split; [exact F|exact M|]. unfold runningb in R. destruct (sto t); [discriminate|discriminate]. }
+        destruct (proj2 (Q tg) (conj TG AC)) as [e' [A' B']]. rewrite A in A'; injection A' as <-. exact B'.
+    + destruct TK as [_ [_ NQ]]. split; [intros B; exfalso; apply (NQ tg); exists e; split; assumption|].
+      intros [t' [E _]]; discriminate.
 Qed.
